@@ -152,6 +152,17 @@ pub fn run(sink: &mut Sink, rng: &mut Rng, thorough: bool) {
     } else if choice < 60 {
       let i = pick_idx(rng, &known);
       (format!("store get {}", i), guarded(AssertUnwindSafe(|| get_ans(store, i))))
+    } else if choice < 63 {
+      // read-only queries on one or two indices (same index twice, dead indices included)
+      let i = pick_idx(rng, &known);
+      if rng.chance(1, 2) {
+        let j = if rng.chance(1, 2) { i } else { pick_idx(rng, &known) };
+        let r = guarded(AssertUnwindSafe(|| match store.eq(i, j) { Ok(b) => b.to_string(), Err(e) => err_class(&e).to_string() }));
+        (format!("store eq {} {}", i, j), r)
+      } else {
+        let r = guarded(AssertUnwindSafe(|| match store.is_empty(i) { Ok(b) => b.to_string(), Err(e) => err_class(&e).to_string() }));
+        (format!("store isempty {}", i), r)
+      }
     } else if choice < 66 {
       let i = pick_idx(rng, &known);
       (format!("store not {}", i), guarded(AssertUnwindSafe(|| idx_ans(store.not(i)))))
